@@ -107,6 +107,15 @@ CASES = [
     ("geometry-lambert-sign", ["C20"], "geometry.py", "prefactor = np.sqrt((1 - zvals) /", "prefactor = np.sqrt((1 + zvals) /", M),
     ("geometry-poles-axis", ["C20"], "geometry.py", "yvals = directions[:, axes_map[_ref_axes[1]]]", "yvals = directions[:, axes_map[_ref_axes[0]]]", M),
     ("stats-clip-before-normalise", ["C20"], "stats.py", "    totals /= totals.mean()\n    totals[totals < 0] = 0", "    totals[totals < 0] = 0\n    totals /= totals.mean()", M),
+    # ---------------- rules added after the third seeded round
+    ("io-skip-whitespace-lines", ["C16"], "io.py", "            if line == \"\\n\":  # Empty lines are skipped.", "            if not line.strip():  # Empty lines are skipped.", M),
+    ("core-asdict-defaults", ["C19"], "core.py", "        return asdict(self)", "        return {k: v.default for k, v in self.__dataclass_fields__.items()}", M),
+    ("io-output-default-anisotropy", ["C19"], "io.py", "[\"Voigt\", \"hexaxis\", \"moduli\", \"%decomp\"]", "[\"Voigt\", \"hexaxis\", \"moduli\"]", M),
+    ("io-strain-final-default", ["C19"], "io.py", "_input.get(\"strain_final\", np.inf)", "_input.get(\"strain_final\", 0.0)", M),
+    ("io-fraction-sum-unchecked", ["C19"], "io.py", "    if np.abs(np.sum(_params[\"phase_fractions\"]) - 1.0) > 1e-16:", "    if np.abs(np.sum(_params[\"phase_fractions\"]) - 1.0) > 1.0:", M),
+    ("diag-sccs-wrong-column", ["C12"], "diagnostics.py", "eigv_vij[:, int(abs(index_vij))]", "eigv_vij[:, i]", M),
+    ("diag-sccs-unsigned", ["C12"], "diagnostics.py", "eigv_dij[:, i] + index_vij * eigv_vij", "eigv_dij[:, i] + eigv_vij", M),
+    ("stats-resample-unsorted-volumes", ["C15"], "stats.py", "        out_fractions[i, ...] = frac_ascending[count_less]", "        out_fractions[i, ...] = frac[count_less]", M),
     # ---------------- benign refactors (must stay silent)
     ("benign-rename-locals", ["C02", "C03"], "core.py", "    invariants = np.zeros(4)\n    for i in range(3):\n        for j in range(3):\n            # (010)[100]\n            invariants[0] +=",
      "    invariants = np.zeros(4)\n    for i in range(3):\n        for j in range(3):\n            # slip system (010)[100]\n            invariants[0] +=", B),
@@ -139,6 +148,12 @@ CASES = [
     ("benign-corner-factor", ["C18"], "velocity.py", "    prefactor = 4 * plate_speed / (np.pi * (h**2 + v**2) ** 2)", "    r2 = h**2 + v**2\n    prefactor = 4 * plate_speed / (np.pi * r2 * r2)", B),
     ("benign-config-local", ["C19"], "io.py", "    n_provided = len(_params[\"disl_coefficients\"])", "    coeffs = _params[\"disl_coefficients\"]\n    n_provided = len(coeffs)", B),
     ("benign-gbs-where", ["C09", "C01"], "utils.py", "    fractions[mask] = gbs_threshold / n_grains\n", "    fractions[:] = np.where(mask, gbs_threshold / n_grains, fractions)\n", B),
+    ("benign-resample-compose", ["C15"], "stats.py", "        out_orientations[i, ...] = orient[sort_ascending][count_less]\n        out_fractions[i, ...] = frac_ascending[count_less]",
+     "        selected = sort_ascending[count_less]\n        out_orientations[i, ...] = orient[selected]\n        out_fractions[i, ...] = frac[selected]", B),
+    ("benign-asdict-getattr", ["C19"], "core.py", "        return asdict(self)", "        return {k: getattr(self, k) for k in self.__dataclass_fields__}", B),
+    ("benign-marker-crlf", ["C16"], "io.py", "            if line == \"---\\n\":", "            if line == \"---\\n\" or line == \"---\\r\\n\":", B),
+    ("benign-sccs-tiebreak", ["C12"], "diagnostics.py", "                if angle_eigvects < angle:", "                if angle_eigvects <= angle:", B),
+    ("benign-lambert-kw", ["C20"], "stats.py", "_geo.lambert_equal_area(x_counters, y_counters, z_counters)", "_geo.lambert_equal_area(xvals=x_counters, yvals=y_counters, zvals=z_counters)", B),
 ]
 # the rename above needs both the definition and the use
 RENAME_ALSO = {"benign-pathline-rename": [("        jac=_ivp_jac,", "        jac=_ivp_jacobian,")]}
